@@ -139,16 +139,158 @@ func c05(c *core.Check) {
 	writes := stateWrites(vmfs)
 	c.Extra["functions_reachable_from_ProcessLogLine_in_vm"] = len(vmfs)
 
-	c.Rule("C05-R1", "AUDIT: every field of vm.VM / vm.thread written under ProcessLogLine is classified fresh, reset, diagnostic or memo by a checked argument; an unclassified written field fails")
-	type cls struct{ kind, why string }
-	vmClass := map[string]cls{
-		"t":            {"fresh", "assigned from a thread created in this call before the loop"},
-		"input":        {"fresh", "assigned from the line parameter before the loop"},
-		"terminate":    {"reset", "see reset rules"},
-		"runtimeError": {"diagnostic", "never read by ProcessLogLine/execute"},
-		"trace":        {"diagnostic", "never read by execute; appended only"},
-		"timeMemos":    {"memo", "see C05-R2"},
+	c.Rule("C05-R1", "AUDIT: every field of vm.VM / vm.thread written under ProcessLogLine is classified by a checked argument — fresh (assigned in ProcessLogLine from the thread created in this call, or from its parameter), reset (a flag only ever assigned constants: tested after every instruction and cleared before the line is left), diagnostic (read only by the error reporter, to update itself, or in a presence test), memo (the cache of C05-R2) — whatever the fields are called; a written field that fits no class fails")
+	exe := c.Prog.Fn(vmExecute)
+	memoFields := map[string]bool{}
+	if exe != nil {
+		ops, _ := memoOps(c, exe)
+		for _, op := range ops {
+			if op.field != "" {
+				memoFields[op.field] = true
+			}
+		}
 	}
+	reportFns := map[*core.Func]bool{}
+	if ef := c.Prog.Fn(vmErrorf); ef != nil {
+		for _, f := range closureFrom(ef) {
+			reportFns[f] = true
+		}
+	}
+	byField := map[string][]fieldWrite{}
+	for _, w := range writes {
+		if w.owner == "VM" {
+			byField[w.field] = append(byField[w.field], w)
+		}
+	}
+	// the value assigned to the field by an assignment write
+	rhsOf := func(w fieldWrite) ast.Expr {
+		as, ok := w.node.(*ast.AssignStmt)
+		if !ok || len(as.Lhs) != len(as.Rhs) || as.Tok != token.ASSIGN {
+			return nil
+		}
+		for i, l := range as.Lhs {
+			if isVMField(w.f.Info(), l, w.field) {
+				return as.Rhs[i]
+			}
+		}
+		return nil
+	}
+	// diagnostic: outside the error reporter the field is only read to update itself or to test its presence
+	diagnostic := func(field string) (bool, string) {
+		for _, f := range vmfs {
+			if reportFns[f] {
+				continue
+			}
+			info := f.Info()
+			fine := map[*ast.SelectorExpr]bool{}
+			mark := func(n ast.Node) {
+				ast.Inspect(n, func(x ast.Node) bool {
+					if sel, ok := x.(*ast.SelectorExpr); ok && isVMField(info, sel, field) {
+						fine[sel] = true
+					}
+					return true
+				})
+			}
+			ast.Inspect(f.Body, func(n ast.Node) bool {
+				switch x := n.(type) {
+				case *ast.AssignStmt:
+					for _, l := range x.Lhs {
+						root := l
+						for {
+							if ix, ok := core.Unparen(root).(*ast.IndexExpr); ok {
+								root = ix.X
+								continue
+							}
+							break
+						}
+						if isVMField(info, root, field) {
+							mark(x) // self-update: reads on the right only flow back into the field
+						}
+					}
+				case *ast.IncDecStmt:
+					if isVMField(info, x.X, field) {
+						mark(x)
+					}
+				case *ast.BinaryExpr:
+					if y, _, ok := nilTest(info, x); ok && isVMField(info, y, field) {
+						mark(x)
+					}
+				}
+				return true
+			})
+			bad := ""
+			ast.Inspect(f.Body, func(n ast.Node) bool {
+				if sel, ok := n.(*ast.SelectorExpr); ok && bad == "" && isVMField(info, sel, field) && !fine[sel] {
+					bad = f.Key + " at " + c.Prog.Position(sel.Pos())
+				}
+				return true
+			})
+			if bad != "" {
+				return false, bad
+			}
+		}
+		return true, ""
+	}
+	resetFields := map[string]bool{}
+	classify := func(field string) (string, bool) {
+		ws := byField[field]
+		if memoFields[field] {
+			return "memo: the cache of the memo operations of execute, see C05-R2", true
+		}
+		allThread, allParam, allConst := true, true, true
+		for _, w := range ws {
+			r := rhsOf(w)
+			var o types.Object
+			if r != nil {
+				o = identObj(w.f.Info(), r)
+			}
+			if w.f != pll || o == nil || isParam(pll, o) || !strings.HasSuffix(strings.TrimPrefix(o.Type().String(), "*"), "vm.thread") {
+				allThread = false
+			}
+			if w.f != pll || o == nil || !isParam(pll, o) {
+				allParam = false
+			}
+			if r == nil {
+				allConst = false
+			} else if _, isC := constBool(w.f.Info(), r); !isC {
+				allConst = false
+			}
+		}
+		if allThread || allParam {
+			// fresh only if this very field is assigned before the first instruction on every path
+			pg := pll.Graph()
+			var at []core.Point
+			for _, w := range ws {
+				if p, ok := pg.PointOf(w.node); ok {
+					at = append(at, p)
+				}
+			}
+			if _, late := pathAvoiding(pg, nil, core.HitPoints(pg.CallsTo(vmExecute)), at); late || len(at) != len(ws) {
+				return "assigned in ProcessLogLine, but an instruction can run before the assignment: it still holds the previous line's value then", false
+			}
+		}
+		switch {
+		case allThread:
+			return "fresh: assigned in ProcessLogLine from the thread variable (its creation in this call is checked below)", true
+		case allParam:
+			return "fresh: assigned in ProcessLogLine from its parameter before the loop (checked below)", true
+		case allConst:
+			resetFields[field] = true
+			return "reset: a flag only assigned constants, see the reset rules", true
+		}
+		if ok, where := diagnostic(field); ok {
+			return "diagnostic: outside the error reporter only read to update itself or to test its presence", true
+		} else if where != "" {
+			return "read in " + where, false
+		}
+		return "", false
+	}
+	classOf := map[string]string{}
+	classOK := map[string]bool{}
+	for _, fld := range sortedKeys(byField) {
+		classOf[fld], classOK[fld] = classify(fld)
+	}
+	c.Extra["vm_field_classes"] = classOf
 	seen := map[string]bool{}
 	for _, w := range writes {
 		k := w.owner + "." + w.field
@@ -161,39 +303,26 @@ func c05(c *core.Check) {
 			c.Ok("C05-R1", key, pos(c, w.node), "per-line thread (freshness checked below)")
 			continue
 		}
-		if cl, ok := vmClass[w.field]; ok {
-			c.Ok("C05-R1", key, pos(c, w.node), cl.kind+": "+cl.why)
+		if classOK[w.field] {
+			c.Ok("C05-R1", key, pos(c, w.node), classOf[w.field])
 			continue
 		}
-		c.Fail("C05-R1", key, pos(c, w.node), "VM field "+w.field+" is written ("+w.how+") while a line is processed and is not known to be fresh, reset, diagnostic or a transparent memo: its value survives into the next line")
+		extra := ""
+		if classOf[w.field] != "" {
+			extra = " (it is " + classOf[w.field] + ")"
+		}
+		c.Fail("C05-R1", key, pos(c, w.node), "VM field "+w.field+" is written ("+w.how+") while a line is processed and is not known to be fresh, reset, diagnostic or a transparent memo"+extra+": its value survives into the next line")
 	}
 	threadFreshness(c, "C05-R1", pll)
 	g := pll.Graph()
 	execs := g.CallsTo(vmExecute)
-	// reset protocol for terminate
-	termTrue := func(f *core.Func) []ast.Node {
-		var out []ast.Node
-		ast.Inspect(f.Body, func(n ast.Node) bool {
-			if as, ok := n.(*ast.AssignStmt); ok && len(as.Lhs) == 1 && strings.HasSuffix(core.PathOf(as.Lhs[0]), ".terminate") && exprStr(as.Rhs[0]) == "true" {
-				out = append(out, as)
-			}
-			return true
-		})
-		return out
-	}
-	exe := c.Prog.Fn(vmExecute)
 	inExtent := map[*core.Func]bool{}
 	if exe != nil {
 		for _, f := range closureFrom(exe) {
 			inExtent[f] = true
 		}
 	}
-	for _, f := range vmfs {
-		for _, n := range termTrue(f) {
-			c.Verdict(inExtent[f], "C05-R1", "terminate=true in "+f.Key, pos(c, n), "within the extent of execute", "the stop flag is set outside execute's dynamic extent (e.g. in a recover handler of ProcessLogLine): the test-and-reset after execute is bypassed and the flag aborts the next line")
-		}
-	}
-	// callers of errorf / functions setting terminate must be in the extent of execute
+	// callers of errorf (which sets the stop flag) must be in the extent of execute
 	for _, k := range c.Prog.SortedFuncKeys() {
 		f := c.Prog.Funcs[k]
 		if core.Rel(f.Pkg.PkgPath) != "internal/runtime/vm" || c.Prog.IsTestSupport(f) {
@@ -207,36 +336,73 @@ func c05(c *core.Check) {
 			return true
 		})
 	}
-	if len(execs) > 0 {
-		termIfs := ifsWhere(pll, func(is *ast.IfStmt) bool { return strings.HasSuffix(core.PathOf(is.Cond), ".terminate") })
-		var conds []core.Point
-		for _, is := range termIfs {
-			if p, ok := g.PointOf(is.Cond); ok {
-				conds = append(conds, p)
-			}
-		}
-		for _, e := range execs {
-			from := e.P
-			goals := append(core.ExitPoints(normalExits(g)), core.HitPoints(execs)...)
-			tr, found := pathAvoiding(g, &from, goals, conds)
-			c.Verdict(!found && len(conds) > 0, "C05-R1", processLogLine+"|terminate tested after execute", pos(c, e.N), "tested on every path", "after an instruction the stop flag is not tested on some path: a stop or runtime error does not end the line, or the flag leaks into the next line", tr...)
-		}
-		for _, is := range termIfs {
-			resets := g.Find(func(n ast.Node) bool {
-				as, ok := n.(*ast.AssignStmt)
-				return ok && len(as.Lhs) == 1 && strings.HasSuffix(core.PathOf(as.Lhs[0]), ".terminate") && exprStr(as.Rhs[0]) == "false"
-			})
-			if start, ok := branchStart(g, is, true); ok {
-				tr, found := pathAvoiding(g, start, append(core.ExitPoints(normalExits(g)), core.HitPoints(execs)...), core.HitPoints(resets))
-				c.Verdict(!found, "C05-R1", processLogLine+"|terminate reset", pos(c, is), "reset before leaving", "the stop flag is not cleared when a line is abandoned: the next line is abandoned after its first instruction", tr...)
-			}
-		}
-		// no other reader of terminate
+	if len(resetFields) == 0 {
+		c.Undecided("C05-R1", processLogLine+"|stop flag", pos(c, pll.Decl), "no flag field of the VM (assigned only constants under ProcessLogLine) found: the reset protocol cannot be located")
+	}
+	// reset protocol, for every flag field
+	for _, flag := range sortedKeys(resetFields) {
+		flag := flag
 		for _, f := range vmfs {
 			ast.Inspect(f.Body, func(n ast.Node) bool {
+				if as, ok := n.(*ast.AssignStmt); ok && len(as.Lhs) == len(as.Rhs) {
+					for i, l := range as.Lhs {
+						if v, isC := constBool(f.Info(), as.Rhs[i]); isVMField(f.Info(), l, flag) && isC && v {
+							c.Verdict(inExtent[f], "C05-R1", flag+"=true in "+f.Key, pos(c, as), "within the extent of execute", "the stop flag is set outside execute's dynamic extent (e.g. in a recover handler of ProcessLogLine): the test-and-reset after execute is bypassed and the flag aborts the next line")
+						}
+					}
+				}
+				return true
+			})
+		}
+		if len(execs) == 0 {
+			continue
+		}
+		// The flag is read in conditions of any shape (`if v.terminate`, `if !v.terminate { continue }`,
+		// `v.terminate == true`, a loop condition, a switch): each condition is reduced to what it
+		// establishes about the flag on its two out-edges.
+		ef := graphFacts(g, func(e ast.Expr) (condFact, bool) {
+			if isVMField(pll.Info(), e, flag) {
+				return condFact{flag, "true", true}, true
+			}
+			return condFact{}, false
+		})
+		tested := func(f condFact) bool { return f.id == flag }
+		isSet := func(f condFact) bool { return f.id == flag && f.eq && f.val == "true" }
+		goals := append(core.ExitPoints(normalExits(g)), core.HitPoints(execs)...)
+		for _, e := range execs {
+			from := e.P
+			tr, found := g.Search(core.Query{From: &from, Goal: core.At(goals...), AvoidEdge: ef.avoid(tested)})
+			c.Verdict(!found, "C05-R1", processLogLine+"|"+flag+" tested after execute", pos(c, e.N), "tested on every path", "after an instruction the stop flag is not tested on some path: a stop or runtime error does not end the line, or the flag leaks into the next line", g.Trail(tr)...)
+		}
+		resets := g.Find(func(n ast.Node) bool {
+			as, ok := n.(*ast.AssignStmt)
+			if !ok || len(as.Lhs) != len(as.Rhs) {
+				return false
+			}
+			for i, l := range as.Lhs {
+				if v, isC := constBool(pll.Info(), as.Rhs[i]); isVMField(pll.Info(), l, flag) && isC && !v {
+					return true
+				}
+			}
+			return false
+		})
+		setEdges := ef.edgesWith(isSet)
+		if len(setEdges) == 0 {
+			c.Undecided("C05-R1", processLogLine+"|"+flag+" reset", pos(c, pll.Decl), "no condition of ProcessLogLine establishes that the stop flag is set: cannot decide where it has to be cleared")
+		}
+		for k := range setEdges {
+			start := setEdges[k]
+			tr, found := pathAvoiding(g, &start, goals, core.HitPoints(resets))
+			c.Verdict(!found, "C05-R1", processLogLine+"|"+flag+" reset", ppos(c, core.Point{B: start.B, I: 0}, pll), "reset before leaving", "the stop flag is not cleared when a line is abandoned: the next line is abandoned after its first instruction", tr...)
+		}
+		// other readers of the flag
+		for _, f := range vmfs {
+			if f == pll {
+				continue
+			}
+			ast.Inspect(f.Body, func(n ast.Node) bool {
 				sel, ok := n.(*ast.SelectorExpr)
-				if ok && sel.Sel.Name == "terminate" && f != pll {
-					// allowed: assignments (writers); readers elsewhere are cross-line reads
+				if ok && isVMField(f.Info(), sel, flag) {
 					isWrite := false
 					ast.Inspect(f.Body, func(m ast.Node) bool {
 						if as, ok := m.(*ast.AssignStmt); ok {
@@ -249,23 +415,7 @@ func c05(c *core.Check) {
 						return true
 					})
 					if !isWrite {
-						c.Note("C05-R1", "terminate read in "+f.Key, pos(c, sel), "read within the same line's extent")
-					}
-				}
-				return true
-			})
-		}
-	}
-	// diagnostic fields never read by the interpreter
-	for _, fld := range []string{"runtimeError"} {
-		for _, f := range vmfs {
-			if f.Key == vmErrorf {
-				continue
-			}
-			ast.Inspect(f.Body, func(n ast.Node) bool {
-				if sel, ok := n.(*ast.SelectorExpr); ok && sel.Sel.Name == fld {
-					if s := f.Info().Selections[sel]; s != nil && strings.HasSuffix(s.Recv().String(), "vm.VM") {
-						c.Fail("C05-R1", "diagnostic "+fld+" read in "+f.Key, pos(c, sel), "the last runtime error text is read while processing a line: an earlier line's error influences a later line")
+						c.Note("C05-R1", flag+" read in "+f.Key, pos(c, sel), "read within the same line's extent")
 					}
 				}
 				return true
@@ -344,9 +494,169 @@ func threadStruct(c *core.Check) *types.Struct {
 	return st
 }
 
+// memoOp is a lookup or an insertion on an lru cache held in a field of the
+// VM, made in execute directly or through a pass-through wrapper function.
+type memoOp struct {
+	hit   core.Hit
+	call  *ast.CallExpr
+	add   bool
+	field string   // VM field holding the cache
+	key   ast.Expr // key expression at the call site in execute
+	val   ast.Expr // inserted value (add only)
+	via   string   // wrapper function key, "" if direct
+}
+
+func isLRU(id, method string) bool { return strings.HasSuffix(id, "lru.(*Cache)."+method) }
+
+// vmFieldIn returns the name of the first field of vm.VM selected in the chain of e.
+func vmFieldIn(info *types.Info, e ast.Expr) string {
+	name := ""
+	ast.Inspect(e, func(n ast.Node) bool {
+		if sel, ok := n.(*ast.SelectorExpr); ok && name == "" {
+			if s := info.Selections[sel]; s != nil && s.Kind() == types.FieldVal && strings.HasSuffix(s.Recv().String(), "vm.VM") {
+				name = sel.Sel.Name
+			}
+		}
+		return name == ""
+	})
+	return name
+}
+
+// paramPos returns the position of obj among the parameters of f, or -1.
+func paramPos(f *core.Func, obj types.Object) int {
+	i := 0
+	for _, fl := range f.Type.Params.List {
+		if len(fl.Names) == 0 {
+			i++
+			continue
+		}
+		for _, n := range fl.Names {
+			if obj != nil && f.Info().Defs[n] == obj {
+				return i
+			}
+			i++
+		}
+	}
+	return -1
+}
+
+// memoOps finds the memo operations of execute.  stray lists cache insertions
+// reachable from execute that are neither made in execute nor inside a
+// recognised pass-through wrapper.
+func memoOps(c *core.Check, exe *core.Func) (ops []memoOp, stray []string) {
+	info := exe.Info()
+	wrappers := map[*core.Func]bool{}
+	for _, h := range exe.Graph().Calls(func(id string, call *ast.CallExpr) bool { return true }) {
+		call := h.N.(*ast.CallExpr)
+		id := exe.CalleeID(call)
+		switch {
+		case isLRU(id, "Add") && len(call.Args) == 2 && core.RecvExpr(call) != nil:
+			ops = append(ops, memoOp{hit: h, call: call, add: true, field: vmFieldIn(info, core.RecvExpr(call)), key: call.Args[0], val: call.Args[1]})
+		case isLRU(id, "Get") && len(call.Args) == 1 && core.RecvExpr(call) != nil:
+			ops = append(ops, memoOp{hit: h, call: call, field: vmFieldIn(info, core.RecvExpr(call)), key: call.Args[0]})
+		default:
+			w := exe.CalleeFunc(call)
+			if w == nil || w.Lit != nil || w.Pkg != exe.Pkg {
+				continue
+			}
+			// a pass-through wrapper: one cache call in its body whose key (and value) are its own parameters
+			var inner []*ast.CallExpr
+			ast.Inspect(w.Body, func(n ast.Node) bool {
+				if ic, ok := n.(*ast.CallExpr); ok {
+					if iid := w.CalleeID(ic); isLRU(iid, "Add") || isLRU(iid, "Get") {
+						inner = append(inner, ic)
+					}
+				}
+				return true
+			})
+			if len(inner) != 1 {
+				continue
+			}
+			ic := inner[0]
+			isAdd := isLRU(w.CalleeID(ic), "Add")
+			ki := paramPos(w, identObj(w.Info(), ic.Args[0]))
+			if ki < 0 || ki >= len(call.Args) {
+				continue
+			}
+			field := ""
+			if r := core.RecvExpr(call); r != nil {
+				field = vmFieldIn(info, r)
+			}
+			if field == "" && core.RecvExpr(ic) != nil {
+				field = vmFieldIn(w.Info(), core.RecvExpr(ic))
+			}
+			op := memoOp{hit: h, call: call, add: isAdd, field: field, key: call.Args[ki], via: w.Key}
+			if isAdd {
+				vi := paramPos(w, identObj(w.Info(), ic.Args[1]))
+				if vi < 0 || vi >= len(call.Args) {
+					continue
+				}
+				op.val = call.Args[vi]
+			}
+			wrappers[w] = true
+			c.Analysed(w)
+			ops = append(ops, op)
+		}
+	}
+	for _, f := range closureFrom(exe) {
+		if f == exe || f.Pkg != exe.Pkg || wrappers[f] {
+			continue
+		}
+		ast.Inspect(f.Body, func(n ast.Node) bool {
+			if ic, ok := n.(*ast.CallExpr); ok && isLRU(f.CalleeID(ic), "Add") {
+				stray = append(stray, f.Key+" at "+c.Prog.Position(ic.Pos()))
+			}
+			return true
+		})
+	}
+	return
+}
+
+// stopFlags lists the boolean fields of the VM that the error reporter errorf sets to true: the signal "this instruction failed".
+func stopFlags(c *core.Check) map[string]bool {
+	out := map[string]bool{}
+	ef := c.Prog.Fn(vmErrorf)
+	if ef == nil {
+		return out
+	}
+	info := ef.Info()
+	ast.Inspect(ef.Body, func(n ast.Node) bool {
+		if as, ok := n.(*ast.AssignStmt); ok && len(as.Lhs) == len(as.Rhs) {
+			for i, l := range as.Lhs {
+				sel, isSel := core.Unparen(l).(*ast.SelectorExpr)
+				if v, isC := constBool(info, as.Rhs[i]); isSel && isC && v && isVMField(info, l, sel.Sel.Name) {
+					out[sel.Sel.Name] = true
+				}
+			}
+		}
+		return true
+	})
+	return out
+}
+
+// closureAvoiding returns the declared functions reachable from root without passing through a function with key stop.
+func closureAvoiding(root *core.Func, stop string) []*core.Func {
+	seen := map[*core.Func]bool{root: true}
+	work := []*core.Func{root}
+	var out []*core.Func
+	for len(work) > 0 {
+		f := work[0]
+		work = work[1:]
+		out = append(out, f)
+		for _, cf := range f.Callees() {
+			if !seen[cf] && cf.Key != stop {
+				seen[cf] = true
+				work = append(work, cf)
+			}
+		}
+	}
+	sort.Slice(out, func(i, j int) bool { return out[i].Key < out[j].Key })
+	return out
+}
+
 // c05memo decides memo transparency for every Get/Add pair on an lru cache field of the VM.
 func c05memo(c *core.Check, rule string) {
-	c.Rule(rule, "MEMO: for each cache.Add(k, val) on a VM cache field where val is the result of a call f(args…): (a) the lookup cache.Get uses the same key expression; (b) every variable argument of f occurs in k; (c) on every path from the call of f to the Add a failure of f (signalled through the stop flag or an error result) has been tested, so a failed result is never stored; (d) every field read inside f besides its parameters is only ever assigned in vm.New")
+	c.Rule(rule, "MEMO: for each insertion cache.Add(k, val) on a VM cache field made by execute (directly or through a pass-through wrapper) where val is the result of a call f(args…): (a) a lookup on the same cache uses the same key (compared after resolving local variables); (b) every variable argument of f occurs in k; (c) the insertion is reached from the call of f only over an edge on which a failure of f (signalled through the stop flag or an error/ok result) is known not to have happened, so a failed result is never stored; (d) every VM field read by f and the functions it calls (the error reporter excepted) is only ever assigned in vm.New; (e) where the value found on a hit is stored, the miss stores exactly the value it inserted; the cache field itself is assigned only in vm.New")
 	exe := c.Prog.Fn(vmExecute)
 	if exe == nil {
 		c.Undecided(rule, vmExecute, "-", "execute not found")
@@ -354,56 +664,69 @@ func c05memo(c *core.Check, rule string) {
 	}
 	info := exe.Info()
 	g := exe.Graph()
-	adds := g.Calls(func(id string, call *ast.CallExpr) bool {
-		return strings.HasSuffix(id, "lru.(*Cache).Add") && core.RecvExpr(call) != nil
-	})
-	gets := g.Calls(func(id string, call *ast.CallExpr) bool {
-		return strings.HasSuffix(id, "lru.(*Cache).Get") && core.RecvExpr(call) != nil
-	})
+	flags := stopFlags(c)
+	ops, stray := memoOps(c, exe)
+	for _, s := range stray {
+		c.Undecided(rule, "memo insertion outside execute", "-", "a cache insertion reachable from execute is made in "+s+", which is not a pass-through wrapper called from execute: the memo's key, producer and failure test cannot be located")
+	}
+	var adds, gets []memoOp
+	for _, op := range ops {
+		if op.add {
+			adds = append(adds, op)
+		} else {
+			gets = append(gets, op)
+		}
+	}
 	c.Extra["memo_sites"] = len(adds)
 	if len(adds) == 0 {
-		c.Note(rule, "no memo", "-", "no cache insertion found in execute: nothing memoised")
+		if len(stray) == 0 {
+			c.Note(rule, "no memo", "-", "no cache insertion found in or under execute: nothing memoised")
+		}
 		return
 	}
+	fields := map[string]bool{}
 	for i, a := range adds {
-		call := a.N.(*ast.CallExpr)
-		cache := core.PathOf(core.RecvExpr(call))
-		key := fmt.Sprintf("%s Add#%d", cache, i+1)
-		kexpr := call.Args[0]
+		call := a.call
+		cache := a.field
+		if cache == "" {
+			c.Undecided(rule, fmt.Sprintf("memo Add#%d", i+1), pos(c, call), "the cache of this insertion is not held in a field of the VM")
+			continue
+		}
+		fields[cache] = true
+		key := fmt.Sprintf("v.%s Add#%d", cache, i+1)
+		kexpr := a.key
 		// (a)
 		sameKey := false
 		for _, gt := range gets {
-			gc := gt.N.(*ast.CallExpr)
-			if core.PathOf(core.RecvExpr(gc)) == cache && exprStr(gc.Args[0]) == exprStr(kexpr) {
+			if gt.field == cache && canonExpr(exe, gt.key) == canonExpr(exe, kexpr) {
 				sameKey = true
 			}
 		}
 		c.Verdict(sameKey, rule, key+"|a same key", pos(c, call), "lookup and insertion use "+exprStr(kexpr), "the memo is filled under a key expression that the lookup does not use")
 		// find the producing call
-		valObj := identObj(info, call.Args[1])
+		valObj := identObj(info, a.val)
 		var prod *ast.CallExpr
-		var prodAssign *ast.AssignStmt
 		if valObj != nil {
 			ast.Inspect(exe.Body, func(n ast.Node) bool {
 				if as, ok := n.(*ast.AssignStmt); ok && as.End() <= call.Pos() {
 					for j, l := range as.Lhs {
 						if identObj(info, l) == valObj && len(as.Rhs) >= 1 {
 							if pc, ok := core.Unparen(as.Rhs[min(j, len(as.Rhs)-1)]).(*ast.CallExpr); ok {
-								prod, prodAssign = pc, as
+								prod = pc
 							}
 						}
 					}
 				}
 				return true
 			})
-		} else if pc, ok := core.Unparen(call.Args[1]).(*ast.CallExpr); ok {
+		} else if pc, ok := core.Unparen(a.val).(*ast.CallExpr); ok {
 			prod = pc
 		}
 		if prod == nil {
 			c.Undecided(rule, key+"|producer", pos(c, call), "cannot find the call producing the memoised value")
 			continue
 		}
-		// (b) key components: identifiers appearing in the key expression, following one level of local definition
+		// (b) key components: the variables the key is built from, local definitions resolved
 		keyIdents := map[types.Object]bool{}
 		var collectKey func(e ast.Expr, depth int)
 		collectKey = func(e ast.Expr, depth int) {
@@ -411,20 +734,12 @@ func c05memo(c *core.Check, rule string) {
 				if id, ok := n.(*ast.Ident); ok {
 					if o := info.Uses[id]; o != nil {
 						keyIdents[o] = true
-						if depth < 2 {
-							// local definition
-							ast.Inspect(exe.Body, func(m ast.Node) bool {
-								if as, ok := m.(*ast.AssignStmt); ok && as.Tok == token.DEFINE && as.End() <= call.Pos() {
-									for j, l := range as.Lhs {
-										if info.Defs[identOf(l)] == o && j < len(as.Rhs) {
-											if _, isCall := core.Unparen(as.Rhs[j]).(*ast.CallExpr); !isCall {
-												collectKey(as.Rhs[j], depth+1)
-											}
-										}
-									}
+						if depth < 4 {
+							if d := onceDef(exe, o); d != nil {
+								if _, isCall := core.Unparen(d).(*ast.CallExpr); !isCall {
+									collectKey(d, depth+1)
 								}
-								return true
-							})
+							}
 						}
 					}
 				}
@@ -444,50 +759,161 @@ func c05memo(c *core.Check, rule string) {
 		}
 		c.Verdict(len(missing) == 0, rule, key+"|b key covers inputs", pos(c, call), "every argument of "+exprStr(prod.Fun)+" is part of the key",
 			"the memoised result of "+exprStr(prod.Fun)+"("+joinExprs(prod.Args)+") is keyed by "+exprStr(kexpr)+" only; argument(s) "+strings.Join(missing, ", ")+" are missing from the key: the same text parsed under a different one returns the earlier result")
-		// (c) failure tested between producer and Add
+		// (c) the insertion is reached only over an edge that excludes a failure of the producer
+		pf := exe.CalleeFunc(prod)
 		if pp, ok := g.PointOf(prod); ok {
-			var tests []core.Point
-			for _, is := range ifsWhere(exe, func(is *ast.IfStmt) bool {
-				s := exprStr(is.Cond)
-				return is.Pos() > prod.End() && is.End() <= call.Pos()+4000 && (strings.Contains(s, ".terminate") || strings.Contains(s, "err != nil") || strings.Contains(s, "!ok") || strings.HasPrefix(s, "ok"))
-			}) {
-				if p, ok := g.PointOf(is.Cond); ok {
-					tests = append(tests, p)
-				}
-			}
 			producerCanFail := false
-			if pf := exe.CalleeFunc(prod); pf != nil {
+			if pf != nil {
 				for _, cf := range closureFrom(pf) {
 					if cf.Key == vmErrorf {
 						producerCanFail = true
 					}
 				}
-				_ = prodAssign
 			}
-			if producerCanFail {
-				tr, found := pathAvoiding(g, &pp, []core.Point{a.P}, tests)
-				c.Verdict(!found, rule, key+"|c failure not stored", pos(c, call), "failure tested before storing", "the producer can fail (it raises a runtime error) but its result is stored in the memo without testing for that failure: the same bad input raises an error the first time and is silently accepted (as the zero value) afterwards", tr...)
-			} else {
-				c.Ok(rule, key+"|c failure not stored", pos(c, call), "producer cannot raise a runtime error")
-			}
-		}
-		// (d) other inputs of the producer are immutable after New
-		if pf := exe.CalleeFunc(prod); pf != nil {
-			reads := map[string]bool{}
-			ast.Inspect(pf.Body, func(n ast.Node) bool {
-				if sel, ok := n.(*ast.SelectorExpr); ok {
-					if s := pf.Info().Selections[sel]; s != nil && s.Kind() == types.FieldVal && strings.HasSuffix(s.Recv().String(), "vm.VM") {
-						reads[sel.Sel.Name] = true
+			// variables bound to further results of the producer (err, ok)
+			resultVars := map[types.Object]bool{}
+			ast.Inspect(exe.Body, func(n ast.Node) bool {
+				if as, ok := n.(*ast.AssignStmt); ok && len(as.Rhs) == 1 && core.Unparen(as.Rhs[0]) == ast.Expr(prod) {
+					for _, l := range as.Lhs[1:] {
+						if o := identObj(info, l); o != nil {
+							resultVars[o] = true
+							producerCanFail = true
+						}
 					}
 				}
 				return true
 			})
+			ef := graphFacts(g, func(e ast.Expr) (condFact, bool) {
+				for fl := range flags {
+					if isVMField(info, e, fl) {
+						return condFact{"failed", "true", true}, true
+					}
+				}
+				if o := identObj(info, e); o != nil && resultVars[o] {
+					if bt, ok := o.Type().Underlying().(*types.Basic); ok && bt.Info()&types.IsBoolean != 0 {
+						return condFact{"failed", "false", true}, true // ok result
+					}
+				}
+				if x, nonNilWhenTrue, ok := nilTest(info, e); ok {
+					if o := identObj(info, x); o != nil && resultVars[o] {
+						if nonNilWhenTrue {
+							return condFact{"failed", "true", true}, true
+						}
+						return condFact{"failed", "false", true}, true
+					}
+				}
+				return condFact{}, false
+			})
+			if producerCanFail {
+				tr, found := g.Search(core.Query{From: &pp, Goal: core.At(a.hit.P), AvoidEdge: ef.avoid(func(f condFact) bool { return f.id == "failed" && f.eq && f.val == "false" })})
+				c.Verdict(!found, rule, key+"|c failure not stored", pos(c, call), "insertion only reached when the producer is known not to have failed", "the producer can fail (it raises a runtime error) but its result reaches the memo on a path where that failure has not been excluded: the same bad input raises an error the first time and is silently accepted (as the zero value) afterwards", g.Trail(tr)...)
+			} else {
+				c.Ok(rule, key+"|c failure not stored", pos(c, call), "producer cannot raise a runtime error")
+			}
+		}
+		// (e) a hit returns what the miss returned: wherever the looked-up value is stored on a
+		// hit, the miss stores the very value it puts into the memo
+		var cachedObj types.Object
+		var getCall *ast.CallExpr
+		for _, gt := range gets {
+			if gt.field == cache && canonExpr(exe, gt.key) == canonExpr(exe, kexpr) {
+				getCall = gt.call
+			}
+		}
+		if getCall != nil {
+			ast.Inspect(exe.Body, func(n ast.Node) bool {
+				if as, ok := n.(*ast.AssignStmt); ok && len(as.Rhs) == 1 && core.Unparen(as.Rhs[0]) == ast.Expr(getCall) && len(as.Lhs) >= 1 {
+					cachedObj = identObj(info, as.Lhs[0])
+				}
+				return true
+			})
+		}
+		fromCache := func(e ast.Expr) bool {
+			e = core.Unparen(e)
+			if ta, ok := e.(*ast.TypeAssertExpr); ok {
+				e = core.Unparen(ta.X)
+			}
+			return cachedObj != nil && identObj(info, e) == cachedObj
+		}
+		type asg struct {
+			as  *ast.AssignStmt
+			rhs ast.Expr
+		}
+		hitTargets := map[string]*ast.AssignStmt{}
+		var others []asg
+		ast.Inspect(exe.Body, func(n ast.Node) bool {
+			as, ok := n.(*ast.AssignStmt)
+			if !ok || len(as.Lhs) != len(as.Rhs) {
+				return true
+			}
+			for k, l := range as.Lhs {
+				if _, isIdent := core.Unparen(l).(*ast.Ident); isIdent {
+					continue // locals are followed by canonExpr, only stores into state are compared
+				}
+				if fromCache(as.Rhs[k]) {
+					hitTargets[canonExpr(exe, l)] = as
+				}
+			}
+			return true
+		})
+		if cachedObj == nil || len(hitTargets) == 0 {
+			c.Undecided(rule, key+"|e hit equals miss", pos(c, call), "cannot locate where the value found in the memo is stored on a hit")
+		} else {
+			ast.Inspect(exe.Body, func(n ast.Node) bool {
+				as, ok := n.(*ast.AssignStmt)
+				if !ok || len(as.Lhs) != len(as.Rhs) {
+					return true
+				}
+				for k, l := range as.Lhs {
+					if _, isIdent := core.Unparen(l).(*ast.Ident); isIdent {
+						continue
+					}
+					if _, isTarget := hitTargets[canonExpr(exe, l)]; isTarget && !fromCache(as.Rhs[k]) {
+						// only the stores made in the same case as the insertion are the miss side
+						if inSameCase(exe, as, call) {
+							others = append(others, asg{as, as.Rhs[k]})
+						}
+					}
+				}
+				return true
+			})
+			okE := true
+			for _, o := range others {
+				if canonExpr(exe, o.rhs) != canonExpr(exe, a.val) {
+					okE = false
+					c.Fail(rule, key+"|e hit equals miss", pos(c, o.as), "on a memo miss the instruction stores "+exprStr(o.rhs)+" but puts "+exprStr(a.val)+" into the memo: a later hit for the same key yields a different value than the first evaluation did (the result depends on what was parsed before)")
+				}
+			}
+			if okE {
+				c.Ok(rule, key+"|e hit equals miss", pos(c, call), fmt.Sprintf("the miss stores the memoised value itself (%d store(s) compared)", len(others)))
+			}
+		}
+		// (d) other inputs of the producer are immutable after New
+		if pf != nil {
+			reads := map[string]bool{}
+			for _, rf := range closureAvoiding(pf, vmErrorf) {
+				if rf.Pkg != exe.Pkg {
+					continue
+				}
+				c.Analysed(rf)
+				ast.Inspect(rf.Body, func(n ast.Node) bool {
+					if sel, ok := n.(*ast.SelectorExpr); ok {
+						if s := rf.Info().Selections[sel]; s != nil && s.Kind() == types.FieldVal && strings.HasSuffix(s.Recv().String(), "vm.VM") {
+							reads[sel.Sel.Name] = true
+						}
+					}
+					return true
+				})
+			}
 			var rs []string
 			for r := range reads {
 				rs = append(rs, r)
 			}
 			sort.Strings(rs)
 			for _, r := range rs {
+				if flags[r] {
+					continue // the failure signal itself, see (c)
+				}
 				writers := fieldWriters(c, "vm.VM", r)
 				okImm := true
 				for _, w := range writers {
@@ -500,10 +926,31 @@ func c05memo(c *core.Check, rule string) {
 		}
 	}
 	// the cache field itself is per VM: assigned only in New from a constructor call
-	for _, w := range fieldWriters(c, "vm.VM", "timeMemos") {
-		c.Verdict(w == vmNew, rule, "timeMemos assigned in "+w, "-", "per-VM cache created in New", "the time memo of a VM is (re)assigned outside vm.New: caches can be shared between programs or replaced mid-run")
+	for _, fld := range sortedKeys(fields) {
+		ws := fieldWriters(c, "vm.VM", fld)
+		if len(ws) == 0 {
+			c.Undecided(rule, fld+" assigned", "-", "no assignment of the cache field found: cannot decide that every VM has its own cache")
+		}
+		for _, w := range ws {
+			c.Verdict(w == vmNew, rule, fld+" assigned in "+w, "-", "per-VM cache created in New", "the time memo of a VM is (re)assigned outside vm.New: caches can be shared between programs or replaced mid-run")
+		}
 	}
 	c.Floor(rule, 4)
+}
+
+// inSameCase reports whether a and b lie in the same outermost case clause of f (the opcode case of execute).
+func inSameCase(f *core.Func, a, b ast.Node) bool {
+	outer := func(n ast.Node) *ast.CaseClause {
+		var res *ast.CaseClause
+		ast.Inspect(f.Body, func(x ast.Node) bool {
+			if cc, ok := x.(*ast.CaseClause); ok && res == nil && cc.Pos() <= n.Pos() && n.End() <= cc.End() {
+				res = cc
+			}
+			return res == nil
+		})
+		return res
+	}
+	return outer(a) == outer(b)
 }
 
 func joinExprs(es []ast.Expr) string {
@@ -548,98 +995,301 @@ func fieldWriters(c *core.Check, recvSuffix, field string) []string {
 	return uniq(out)
 }
 
-// threadFreshness checks that ProcessLogLine creates the per-line thread (and
-// its map/slice fields) anew, and binds v.t and v.input, before the first
-// instruction on every path.
-func threadFreshness(c *core.Check, rule string, pll *core.Func) {
-	// fresh thread
-	g := pll.Graph()
-	info := pll.Info()
-	execs := g.CallsTo(vmExecute)
-	var threadVar types.Object
-	var newThread, assignVT, assignInput []core.Hit
-	for _, h := range g.Find(func(n ast.Node) bool { _, ok := n.(*ast.AssignStmt); return ok }) {
-		as := h.N.(*ast.AssignStmt)
-		if len(as.Lhs) != 1 || len(as.Rhs) != 1 {
-			continue
+// isVMField reports whether e selects the named field of vm.VM.
+func isVMField(info *types.Info, e ast.Expr, field string) bool {
+	return isFieldOf(info, e, "vm.VM", field)
+}
+
+func isFieldOf(info *types.Info, e ast.Expr, recvSuffix, field string) bool {
+	sel, ok := core.Unparen(e).(*ast.SelectorExpr)
+	if !ok || sel.Sel.Name != field {
+		return false
+	}
+	s := info.Selections[sel]
+	return s != nil && s.Kind() == types.FieldVal && strings.HasSuffix(s.Recv().String(), recvSuffix)
+}
+
+// threadCreation describes one place where a per-line thread is created.
+type threadCreation struct {
+	f    *core.Func        // function holding the creating expression
+	v    types.Object      // local variable of f bound to the new thread
+	lit  *ast.CompositeLit // the composite literal, if created as &thread{…}
+	node ast.Node
+}
+
+// freshThreadExpr reports whether e creates a thread: new(thread) or &thread{…}.
+func freshThreadExpr(f *core.Func, e ast.Expr) (*ast.CompositeLit, bool) {
+	info := f.Info()
+	e = core.Unparen(e)
+	if call, ok := e.(*ast.CallExpr); ok && f.CalleeID(call) == "builtin.new" && len(call.Args) == 1 {
+		if t := info.TypeOf(call.Args[0]); t != nil && strings.HasSuffix(t.String(), "vm.thread") {
+			return nil, true
 		}
-		rhs := core.Unparen(as.Rhs[0])
-		fresh := false
-		if call, ok := rhs.(*ast.CallExpr); ok && pll.CalleeID(call) == "builtin.new" && strings.HasSuffix(info.TypeOf(call.Args[0]).String(), "vm.thread") {
-			fresh = true
-		}
-		if u, ok := rhs.(*ast.UnaryExpr); ok && u.Op == token.AND {
-			if cl, ok := u.X.(*ast.CompositeLit); ok && strings.HasSuffix(info.TypeOf(cl).String(), "vm.thread") {
-				fresh = true
+	}
+	if u, ok := e.(*ast.UnaryExpr); ok && u.Op == token.AND {
+		if cl, ok := core.Unparen(u.X).(*ast.CompositeLit); ok {
+			if t := info.TypeOf(cl); t != nil && strings.HasSuffix(t.String(), "vm.thread") {
+				return cl, true
 			}
 		}
-		if fresh {
-			threadVar = identObj(info, as.Lhs[0])
-			newThread = append(newThread, h)
-		}
 	}
-	for _, h := range g.Find(func(n ast.Node) bool { _, ok := n.(*ast.AssignStmt); return ok }) {
-		as := h.N.(*ast.AssignStmt)
-		if len(as.Lhs) != 1 || len(as.Rhs) != 1 {
-			continue
-		}
-		l := core.PathOf(as.Lhs[0])
-		if l == recvIdent(pll)+".t" && threadVar != nil && identObj(info, as.Rhs[0]) == threadVar {
-			assignVT = append(assignVT, h)
-		}
-		if l == recvIdent(pll)+".input" && identObj(info, as.Rhs[0]) != nil && isParam(pll, identObj(info, as.Rhs[0])) {
-			assignInput = append(assignInput, h)
-		}
-	}
-	if len(execs) == 0 {
-		c.Undecided(rule, processLogLine+"|execute", pos(c, pll.Decl), "no call of execute found")
-	} else {
-		for name, evs := range map[string][]core.Hit{"new thread": newThread, "v.t = thread": assignVT, "v.input = line": assignInput} {
-			tr, found := pathAvoiding(g, nil, core.HitPoints(execs), core.HitPoints(evs))
-			c.Verdict(!found && len(evs) > 0, rule, processLogLine+"|fresh "+name, pos(c, pll.Decl), "on every path before the first instruction", "an instruction can execute without "+name+" having happened in this call: the previous line's thread state (capture groups, time register, stack, matched flag) or input is reused", tr...)
-		}
-		// execute must be called with the fresh thread
-		for _, e := range execs {
-			call := e.N.(*ast.CallExpr)
-			c.Verdict(len(call.Args) >= 1 && identObj(info, call.Args[0]) == threadVar && threadVar != nil, rule, processLogLine+"|execute runs on the fresh thread", pos(c, call), "fresh thread passed", "execute is not given the thread created for this line")
-		}
-		// reference-typed thread fields assigned from make()
-		if threadVar != nil {
-			st := threadStruct(c)
-			if st == nil {
-				c.Undecided(rule, "thread struct", "-", "vm.thread not found")
-			} else {
-				for i := 0; i < st.NumFields(); i++ {
-					fld := st.Field(i)
-					switch fld.Type().Underlying().(type) {
-					case *types.Map, *types.Slice, *types.Pointer, *types.Chan:
-					default:
-						continue
+	return nil, false
+}
+
+// threadCreations lists the definitions `x := new(thread)` / `x := &thread{…}` of f.
+func threadCreations(f *core.Func) []threadCreation {
+	var out []threadCreation
+	info := f.Info()
+	core.InspectNoLit(f.Body, func(n ast.Node) bool {
+		switch x := n.(type) {
+		case *ast.AssignStmt:
+			if len(x.Lhs) != len(x.Rhs) {
+				return true
+			}
+			for i, l := range x.Lhs {
+				if cl, ok := freshThreadExpr(f, x.Rhs[i]); ok {
+					if o := identObj(info, l); o != nil {
+						out = append(out, threadCreation{f, o, cl, x})
 					}
-					okFresh := false
-					var where ast.Node = pll.Decl
-					for _, h := range g.Find(func(n ast.Node) bool { _, ok := n.(*ast.AssignStmt); return ok }) {
-						as := h.N.(*ast.AssignStmt)
-						if len(as.Lhs) == 1 && core.PathOf(as.Lhs[0]) == threadVar.Name()+"."+fld.Name() {
-							where = as
-							if call, ok := core.Unparen(as.Rhs[0]).(*ast.CallExpr); ok && pll.CalleeID(call) == "builtin.make" {
-								okFresh = true
-								if _, found := pathAvoiding(g, nil, core.HitPoints(execs), []core.Point{h.P}); found {
-									okFresh = false
-								}
-							} else {
-								okFresh = false
-								break
-							}
-						}
+				}
+			}
+		case *ast.ValueSpec:
+			if len(x.Names) != len(x.Values) {
+				return true
+			}
+			for i, nm := range x.Names {
+				if cl, ok := freshThreadExpr(f, x.Values[i]); ok {
+					if o := info.Defs[nm]; o != nil {
+						out = append(out, threadCreation{f, o, cl, x})
 					}
-					// a nil slice/map left at its zero value is fresh too, if never assigned
-					if where == ast.Node(pll.Decl) {
-						okFresh = true
-					}
-					c.Verdict(okFresh, rule, processLogLine+"|fresh thread."+fld.Name(), pos(c, where), "made anew for this line", "the per-line thread's "+fld.Name()+" is not created with make() in this call (taken from the VM or reused): entries written while processing an earlier line are visible to this one")
 				}
 			}
 		}
+		return true
+	})
+	return out
+}
+
+// threadConstructor reports whether h is a function every return of which
+// yields a thread created in h (`t := new(thread); …; return t`), and
+// returns that creation.
+func threadConstructor(h *core.Func) (threadCreation, bool) {
+	if h == nil || h.Lit != nil {
+		return threadCreation{}, false
+	}
+	cs := threadCreations(h)
+	if len(cs) != 1 {
+		return threadCreation{}, false
+	}
+	n := 0
+	for _, ex := range h.Graph().Exits() {
+		if ex.Kind == "panic" {
+			continue
+		}
+		if ex.Ret == nil || len(ex.Ret.Results) != 1 || identObj(h.Info(), ex.Ret.Results[0]) != cs[0].v {
+			return threadCreation{}, false
+		}
+		n++
+	}
+	// the variable must not be re-bound
+	if onceDef(h, cs[0].v) == nil {
+		return threadCreation{}, false
+	}
+	return cs[0], n > 0
+}
+
+// freshValue reports whether e creates a new, empty map/slice/channel (make,
+// a composite literal of that type, or nil).
+func freshValue(f *core.Func, e ast.Expr) bool {
+	e = core.Unparen(e)
+	if isNilIdent(f.Info(), e) {
+		return true
+	}
+	if call, ok := e.(*ast.CallExpr); ok && f.CalleeID(call) == "builtin.make" {
+		return true
+	}
+	if cl, ok := e.(*ast.CompositeLit); ok {
+		switch f.Info().TypeOf(cl).Underlying().(type) {
+		case *types.Map, *types.Slice:
+			return len(cl.Elts) == 0
+		}
+	}
+	return false
+}
+
+// threadFreshness checks that ProcessLogLine creates the per-line thread (and
+// its map/slice fields) anew, and binds v.t and v.input, before the first
+// instruction on every path.  The thread may be created inline (new(thread) or
+// &thread{…}) or by a constructor function that returns a thread it created.
+func threadFreshness(c *core.Check, rule string, pll *core.Func) {
+	g := pll.Graph()
+	info := pll.Info()
+	execs := g.CallsTo(vmExecute)
+	if len(execs) == 0 {
+		c.Undecided(rule, processLogLine+"|execute", pos(c, pll.Decl), "no call of execute found")
+		return
+	}
+	// where is the thread created?
+	var threadVar types.Object
+	var creations []threadCreation // the inline creation, or the one inside the constructor
+	var newThread []core.Hit
+	for _, h := range g.Find(func(n ast.Node) bool {
+		switch n.(type) {
+		case *ast.AssignStmt, *ast.ValueSpec:
+			return true
+		}
+		return false
+	}) {
+		var lhs []ast.Expr
+		var rhs []ast.Expr
+		switch x := h.N.(type) {
+		case *ast.AssignStmt:
+			lhs, rhs = x.Lhs, x.Rhs
+		case *ast.ValueSpec:
+			for _, nm := range x.Names {
+				lhs = append(lhs, nm)
+			}
+			rhs = x.Values
+		}
+		if len(lhs) != len(rhs) {
+			continue
+		}
+		for i := range lhs {
+			o := identObj(info, lhs[i])
+			if o == nil {
+				continue
+			}
+			if cl, ok := freshThreadExpr(pll, rhs[i]); ok {
+				threadVar = o
+				newThread = append(newThread, h)
+				creations = append(creations, threadCreation{pll, o, cl, h.N})
+			} else if call, ok := core.Unparen(rhs[i]).(*ast.CallExpr); ok {
+				if tc, ok := threadConstructor(pll.CalleeFunc(call)); ok {
+					threadVar = o
+					newThread = append(newThread, h)
+					creations = append(creations, tc)
+					c.Analysed(tc.f)
+				}
+			}
+		}
+	}
+	var assignVT, assignInput []core.Hit
+	for _, h := range g.Find(func(n ast.Node) bool { _, ok := n.(*ast.AssignStmt); return ok }) {
+		as := h.N.(*ast.AssignStmt)
+		if len(as.Lhs) != len(as.Rhs) {
+			continue
+		}
+		for i, l := range as.Lhs {
+			// the VM's current-thread and input fields are recognised by what they are given, not by their names
+			sel, isSel := core.Unparen(l).(*ast.SelectorExpr)
+			if !isSel || !isVMField(info, l, sel.Sel.Name) {
+				continue
+			}
+			if threadVar != nil && identObj(info, as.Rhs[i]) == threadVar {
+				assignVT = append(assignVT, h)
+			}
+			if o := identObj(info, as.Rhs[i]); o != nil && isParam(pll, o) {
+				assignInput = append(assignInput, h)
+			}
+		}
+	}
+	for _, ev := range []struct {
+		name string
+		evs  []core.Hit
+	}{{"new thread", newThread}, {"v.t = thread", assignVT}, {"v.input = line", assignInput}} {
+		tr, found := pathAvoiding(g, nil, core.HitPoints(execs), core.HitPoints(ev.evs))
+		c.Verdict(!found && len(ev.evs) > 0, rule, processLogLine+"|fresh "+ev.name, pos(c, pll.Decl), "on every path before the first instruction", "an instruction can execute without "+ev.name+" having happened in this call: the previous line's thread state (capture groups, time register, stack, matched flag) or input is reused", tr...)
+	}
+	// execute must be called with the fresh thread
+	for _, e := range execs {
+		call := e.N.(*ast.CallExpr)
+		c.Verdict(len(call.Args) >= 1 && identObj(info, call.Args[0]) == threadVar && threadVar != nil, rule, processLogLine+"|execute runs on the fresh thread", pos(c, call), "fresh thread passed", "execute is not given the thread created for this line")
+	}
+	if threadVar == nil {
+		return
+	}
+	// reference-typed thread fields: every value they are given — in the creating composite
+	// literal, in the constructor, or in ProcessLogLine before the first instruction — is made anew
+	st := threadStruct(c)
+	if st == nil {
+		c.Undecided(rule, "thread struct", "-", "vm.thread not found")
+		return
+	}
+	for i := 0; i < st.NumFields(); i++ {
+		fld := st.Field(i)
+		switch fld.Type().Underlying().(type) {
+		case *types.Map, *types.Slice, *types.Pointer, *types.Chan:
+		default:
+			continue
+		}
+		okFresh := true
+		var where ast.Node = pll.Decl
+		given, atCreation := 0, false
+		var inPLL []core.Point
+		check := func(f *core.Func, val ast.Expr, at ast.Node) {
+			given++
+			where = at
+			if !freshValue(f, val) {
+				okFresh = false
+			}
+		}
+		for _, cr := range creations {
+			if cr.lit != nil {
+				for k, el := range cr.lit.Elts {
+					if kv, ok := el.(*ast.KeyValueExpr); ok {
+						if id, ok := kv.Key.(*ast.Ident); ok && id.Name == fld.Name() {
+							check(cr.f, kv.Value, kv)
+							atCreation = true
+						}
+					} else if k == i { // positional literal
+						check(cr.f, el, el)
+						atCreation = true
+					}
+				}
+			}
+			// assignments x.F = … on the created variable: in the function that created it, and in ProcessLogLine
+			type scopeT struct {
+				f *core.Func
+				v types.Object
+			}
+			scope := []scopeT{{cr.f, cr.v}}
+			if cr.f != pll {
+				scope = append(scope, scopeT{pll, threadVar})
+			}
+			for _, sc := range scope {
+				for _, h := range sc.f.Graph().Find(func(n ast.Node) bool { _, ok := n.(*ast.AssignStmt); return ok }) {
+					as := h.N.(*ast.AssignStmt)
+					for k, l := range as.Lhs {
+						sel, ok := core.Unparen(l).(*ast.SelectorExpr)
+						if !ok || !isFieldOf(sc.f.Info(), l, "vm.thread", fld.Name()) || identObj(sc.f.Info(), sel.X) != sc.v {
+							continue
+						}
+						if len(as.Lhs) != len(as.Rhs) {
+							given++
+							where, okFresh = as, false
+							continue
+						}
+						check(sc.f, as.Rhs[k], as)
+						if sc.f == pll {
+							inPLL = append(inPLL, h.P)
+						} else {
+							atCreation = true // inside the constructor
+						}
+					}
+				}
+			}
+		}
+		if okFresh && given > 0 && !atCreation {
+			// given its value only by assignments in ProcessLogLine: they must precede the first instruction
+			if _, late := pathAvoiding(g, nil, core.HitPoints(execs), inPLL); late {
+				okFresh = false
+			}
+		}
+		// a nil slice/map left at its zero value is fresh too, if never given a value
+		detail := "made anew for this line"
+		if given == 0 {
+			detail = "left at its zero value by the creation of the thread"
+		}
+		c.Verdict(okFresh, rule, processLogLine+"|fresh thread."+fld.Name(), pos(c, where), detail, "the per-line thread's "+fld.Name()+" is not created with make() in this call (taken from the VM or reused): entries written while processing an earlier line are visible to this one")
 	}
 }
